@@ -182,6 +182,7 @@ func main() {
 
 	rep := report{Property: *prop, Tier: *tier, Seed: *seed, Tags: map[string]int{}, ResultKinds: map[string]int{}}
 	seen := map[[32]byte]bool{}
+	shrunkSig := map[string]bool{}
 	handle := func(c Case) {
 		line := marshal(c.Op)
 		res := normalise(runOp(c.Op))
@@ -202,6 +203,17 @@ func main() {
 		for _, m := range monitors[*prop] {
 			v, nt := m(opN, res)
 			nontrivial = nontrivial || nt
+			for i := range v {
+				if !shrunkSig[v[i].Sig] && *replay == "" {
+					// first hit of this signature: cut the history down to the shortest prefix that still shows it
+					shrunkSig[v[i].Sig] = true
+					if sop, sres, ok := shrinkPrefix(*prop, opN, v[i].Sig); ok {
+						v[i].Desc += fmt.Sprintf(" [history cut to its shortest failing prefix: %s]", sop["_shrunk"])
+						delete(sop, "_shrunk")
+						v[i].Op, v[i].Res = sop, sres
+					}
+				}
+			}
 			rep.Violations = append(rep.Violations, v...)
 		}
 		if first {
@@ -303,3 +315,57 @@ func stripPrivate(v any) any {
 }
 
 func hexs(b []byte) string { return hex.EncodeToString(b) }
+
+// shrinkPrefix: for ops that carry a history (a list of rounds / calls), find the shortest prefix of that
+// list on which the monitors of the property still report the signature sig.  A prefix of a history is a
+// history, so the shortened op is as legitimate an input as the original one.  Lists that run parallel to
+// the history ("honest" labels of mercury.history) are cut to the same length.
+func shrinkPrefix(prop string, op J, sig string) (J, any, bool) {
+	key := ""
+	for _, k := range []string{"roundsB", "rounds", "calls"} {
+		if l := jArr(op[k]); len(l) > 1 {
+			key = k
+			break
+		}
+	}
+	if key == "" {
+		return nil, nil, false
+	}
+	full := jArr(op[key])
+	try := func(n int) (J, any, bool) {
+		c := J{}
+		for k, v := range op {
+			c[k] = v
+		}
+		c[key] = full[:n]
+		if par := jArr(op["honest"]); key == "rounds" && len(par) == len(full) {
+			c["honest"] = par[:n]
+		}
+		res := normalise(runOp(c))
+		for _, m := range monitors[prop] {
+			vs, _ := m(c, res)
+			for _, v := range vs {
+				if v.Sig == sig {
+					return c, res, true
+				}
+			}
+		}
+		return nil, nil, false
+	}
+	lo, hi := 1, len(full) // invariant: prefix of length hi fails (the original); find the least failing length
+	var best J
+	var bestRes any
+	for lo < hi {
+		mid := (lo + hi) / 2
+		if c, r, ok := try(mid); ok {
+			hi, best, bestRes = mid, c, r
+		} else {
+			lo = mid + 1
+		}
+	}
+	if best == nil {
+		return nil, nil, false
+	}
+	best["_shrunk"] = fmt.Sprintf("%d of %d entries of %q", hi, len(full), key)
+	return best, bestRes, true
+}
